@@ -279,7 +279,7 @@ impl Analyzer {
     /// registration must only remove what it added. `None` removes all of them,
     /// which is what a deleted file needs.
     ///
-    /// `text_table` / `attribute_table` / `unsafe_table` are keyed by position
+    /// `text_table` / `doc_comment_table` / `attribute_table` / `unsafe_table` are keyed by position
     /// rather than by project, so they are dropped whole and re-registered
     /// identically by the next parse.
     pub fn drop_file(path: PathId, prj: Option<StrId>) {
@@ -288,6 +288,7 @@ impl Analyzer {
         symbol_table::drop(path, prj);
         scope::drop_tokens(path, prj);
         text_table::drop(path);
+        doc_comment_table::drop(path);
         attribute_table::drop(path);
         unsafe_table::drop(path);
         definition_table::drop(path, prj);
